@@ -10,9 +10,16 @@
                  | err | panic
    newt <cfg> <captured> <hex text> err|doc ...   as new; the text is what the implementation is given,
         the document what yaml.Unmarshal made of it (computed by the harness)
+   renew <captured> <net1> <net2> <hosts> <now> <cid> <mac> <ciaddr> <lease6>*
+   offer <captured> <net1> <net2> <hosts> <now> <cid> <mac> <reqip> <lease6>*
+        hosts  = - | addr=mac+addr=mac...   (session host table: address and MAC of each tracked host)
+        lease6 = cid,state,mac,ip,expiry,sub      (the in-memory table in client-id order)
+        net1/net2 are the validated configurations the handler carries (as it saves them); nextIP is the
+        zero Addr (handler just constructed)
+      observation: ack <addr> | offer <addr> | nak | none | fuel
    save <lease>*|-   (the in-memory table, any state; a single - for the empty table)
       observation: the lease records of the written document, sorted by client id *)
-From PV Require Import Base.Text Model.LeaseBase Model.Lease Model.LeaseKnown.
+From PV Require Import Base.Text Model.LeaseBase Model.Lease Model.LeaseKnown Model.LeaseServe.
 Open Scope string_scope.
 Open Scope N_scope.
 
@@ -146,6 +153,66 @@ Definition outside_home (c : cfg) (r : res dstate) : bool :=
 Definition key_new (c : cfg) (cap : sess) (i : input) (r : res dstate) : string :=
   if outside_home c r && known_C18_bits c i then "load-prefix-bits-unchecked" else "-".
 
+(* ---------------- serving (renew / offer) ---------------- *)
+Definition lease6_of_tok (s : string) : option lease :=
+  match split ","%char s with
+  | [cid; st; mac; ip; ex; sub] =>
+      match rec_of_tok (join "," [cid; st; mac; ip; ex]), N_of_dec sub with
+      | Some r, Some k => Some {| l_rec := r; l_sub := k |}
+      | _, _ => None
+      end
+  | _ => None
+  end.
+
+Definition host_of_tok (s : string) : option (addr * bytes) :=
+  match split "="%char s with
+  | [a; m] => match addr_of_tok a, bytes_of_tok m with
+              | Some a', Some m' => Some (a', m')
+              | _, _ => None
+              end
+  | _ => None
+  end.
+
+Definition hosts_of_tok (s : string) : option hostsT :=
+  if String.eqb s "-" then Some (fun _ => None) else
+  match all_some (map host_of_tok (split "+"%char s)) with
+  | Some hs => Some (fun a => option_map snd (find (fun h => addr_eqb (fst h) a) hs))
+  | None => None
+  end.
+
+Definition subnet_of_tok (s : string) : option subnet :=
+  match net_of_tok s with
+  | Some (Some c) => match newSubnet c with Ok n => Some n | _ => None end
+  | _ => None
+  end.
+
+Definition show_reply (r : reply) : string :=
+  match r with
+  | RNone => "none"
+  | RNak => "nak"
+  | RAck a => "ack " ++ show_addr a
+  | ROffer a => "offer " ++ show_addr a
+  end.
+
+Definition serve (kind : string) (args : list string) : string :=
+  match args with
+  | cap :: n1 :: n2 :: hs :: now :: cid :: mac :: a :: ls =>
+      match captured_of_tok cap, subnet_of_tok n1, subnet_of_tok n2, hosts_of_tok hs, Z_of_dec now,
+            bytes_of_tok cid, bytes_of_tok mac, addr_of_tok a, all_some (map lease6_of_tok ls) with
+      | Some cap', Some s1, Some s2, Some hosts, Some now', Some cid', Some mac', Some a', Some t =>
+          if String.eqb kind "renew" then
+            out3 (show_reply (fst (renew cap' hosts s1 s2 now' t cid' mac' a'))) "-" "-"
+          else
+            match discover 5000 (fun x => x) cap' hosts s1 s2 AInv now' t cid' mac' a' with
+            | Ok (r, _) => out3 (show_reply r) "-" "-"
+            | Fuel => out3 "fuel" "-" "-"
+            | _ => out3 "panic" "-" "-"
+            end
+      | _, _, _, _, _, _, _, _, _ => BADARGS
+      end
+  | _ => BADARGS
+  end.
+
 (* ---------------- dispatch ---------------- *)
 Definition input_of_args (a : list string) : option input :=
   match a with
@@ -185,6 +252,7 @@ Definition dispatch (kind : string) (args : list string) : string :=
         end
     | _ => BADARGS
     end
+  else if String.eqb kind "renew" || String.eqb kind "offer" then serve kind args
   else if String.eqb kind "save" then
     match all_some (map rec_of_tok (filter (fun a => negb (String.eqb a "-")) args)) with
     | Some rs => out3 (show_list (map show_rec (sort_by r_cid (save_leases (map lease_of_rec rs))))) "-" "-"
